@@ -143,10 +143,33 @@ def triage_exception(e: BaseException) -> t.Optional[str]:
     return f"{type(e).__name__}@{os.path.basename(inner.filename)}:{inner.name}"
 
 
+class CaseTimeout(BaseException):
+    """One case ran into the watchdog (not an Exception: the code under test must not be able to swallow it)."""
+
+
+CASE_TIMEOUT_S = float(os.environ.get('PV_CASE_TIMEOUT', '120'))
+
+
+def _on_alarm(signum: int, frame: t.Any) -> None:
+    raise CaseTimeout()
+
+
 def run_check(suite: Suite, case: t.Any) -> Ctx:
+    """One case through the suite's check.  A case normally takes milliseconds; one that is still running after CASE_TIMEOUT_S
+    (an error tree that contains itself and is printed along every path, say) is abandoned: that is *inconclusive* (the shard ends
+    as if its time budget were used up, failures recorded before stand), never a violation by itself."""
+    import signal
+    import threading
     ctx = Ctx()
+    armed = threading.current_thread() is threading.main_thread() and hasattr(signal, 'setitimer')
+    if armed:
+        old = signal.signal(signal.SIGALRM, _on_alarm)
+        signal.setitimer(signal.ITIMER_REAL, CASE_TIMEOUT_S)
     try:
         suite.check(case, ctx)
+    except CaseTimeout:
+        ctx.note = 'timeout'
+        ctx.exclude(f"case abandoned after {CASE_TIMEOUT_S:.0f}s (inconclusive)")
     except HarnessError:
         raise
     except StopRun:
@@ -156,6 +179,10 @@ def run_check(suite: Suite, case: t.Any) -> Ctx:
         if klass is None:
             raise HarnessError(f"check raised {type(e).__name__}: {e}\n{traceback.format_exc()}") from e
         ctx.fail('unexpected-exception', klass, traceback.format_exc()[-1200:])
+    finally:
+        if armed:
+            signal.setitimer(signal.ITIMER_REAL, 0)
+            signal.signal(signal.SIGALRM, old)
     if ctx.evals == 0:
         ctx.evals = 1
     return ctx
@@ -293,7 +320,7 @@ def _run_suite(pid: str, suite: Suite, seed: int, shard: int, nshards: int, acc:
         for case in suite.cases(shard, nshards):
             ctx = run_check(suite, case)
             acc.add(suite, case, ctx, shard)
-            if time.monotonic() - t0 > suite.budget_s:
+            if time.monotonic() - t0 > suite.budget_s or ctx.note == 'timeout':
                 acc.budget_hit = True
                 break
         return
@@ -336,7 +363,7 @@ def _run_suite(pid: str, suite: Suite, seed: int, shard: int, nshards: int, acc:
     def explore(case):
         ctx = run_check(suite, case)
         acc.add(suite, case, ctx, shard)
-        if time.monotonic() - t0 > suite.budget_s:
+        if time.monotonic() - t0 > suite.budget_s or ctx.note == 'timeout':
             acc.budget_hit = True
             raise StopRun()
 
